@@ -341,18 +341,25 @@ func (w *world) finish(r *runResult) {
 		}
 	}
 	st := resource.WithWriteTime(time.Unix(0, sentinelTime))
-	if len(w.vgot) > len(w.pids) {
-		w.val.Set(toProto(fmsg{9001, 9001, 9001}), st)
-		w.val.Set(toProto(fmsg{9002, 9002, 9002}), st)
-	}
-	if len(w.cgot) > 0 || len(w.lossyC) > 0 {
-		w.coll.Update("zz", toProto(fmsg{9001, 9001, 9001}), resource.WithCreateIfAbsent(), st)
-		w.coll.Update("zz", toProto(fmsg{9002, 9002, 9002}), resource.WithCreateIfAbsent(), st)
-	}
-	// a PullID subscriber only hears about its own item: the sentinel is written to that item
-	for _, id := range w.pids {
-		w.coll.Update(id, toProto(fmsg{9001, 9001, 9001}), resource.WithCreateIfAbsent(), st)
-		w.coll.Update(id, toProto(fmsg{9002, 9002, 9002}), resource.WithCreateIfAbsent(), st)
+	// the sentinel writes are ordinary writes: if a turnstile has been left closed (a commit number that
+	// never left) they would wait for ever; that is recognised by the goroutines' wait states
+	if err := bounded("the sentinel write", func() {
+		if len(w.vgot) > len(w.pids) {
+			w.val.Set(toProto(fmsg{9001, 9001, 9001}), st)
+			w.val.Set(toProto(fmsg{9002, 9002, 9002}), st)
+		}
+		if len(w.cgot) > 0 || len(w.lossyC) > 0 {
+			w.coll.Update("zz", toProto(fmsg{9001, 9001, 9001}), resource.WithCreateIfAbsent(), st)
+			w.coll.Update("zz", toProto(fmsg{9002, 9002, 9002}), resource.WithCreateIfAbsent(), st)
+		}
+		// a PullID subscriber only hears about its own item: the sentinel is written to that item
+		for _, id := range w.pids {
+			w.coll.Update(id, toProto(fmsg{9001, 9001, 9001}), resource.WithCreateIfAbsent(), st)
+			w.coll.Update(id, toProto(fmsg{9002, 9002, 9002}), resource.WithCreateIfAbsent(), st)
+		}
+	}); err != nil {
+		r.err = err
+		return
 	}
 	// each PullID reader has either seen its sentinel or the close of its channel
 	for t := range w.pids {
@@ -393,7 +400,12 @@ func (w *world) finish(r *runResult) {
 			if closed {
 				continue
 			}
-			w.coll.Update(id, toProto(fmsg{9003, 9003, 9003}), resource.WithCreateIfAbsent(), st)
+			if err := bounded("the sentinel write", func() {
+				w.coll.Update(id, toProto(fmsg{9003, 9003, 9003}), resource.WithCreateIfAbsent(), st)
+			}); err != nil {
+				r.err = err
+				return
+			}
 		}
 		for {
 			got, err := w.readerStep(t)
@@ -469,6 +481,35 @@ func (w *world) finish(r *runResult) {
 		r.cstreams[t] = out
 	}
 	w.mu.Unlock()
+}
+
+// bounded runs f on a goroutine of its own and gives up when every goroutine has come to rest without f
+// having returned (f is blocked for good)
+func bounded(what string, f func()) error {
+	done := make(chan struct{})
+	go func() {
+		defer close(done)
+		f()
+	}()
+	start := time.Now()
+	for {
+		select {
+		case <-done:
+			return nil
+		case <-time.After(2 * time.Millisecond):
+		}
+		if stuck(start) {
+			select {
+			case <-done:
+				return nil
+			default:
+			}
+			return fmt.Errorf("%s is blocked for good (every goroutine is waiting): a write cannot get past the turnstile, or a subscriber has stopped receiving", what)
+		}
+		if time.Since(start) > stepTimeout {
+			return fmt.Errorf("%s did not return within %v", what, stepTimeout)
+		}
+	}
 }
 
 // list returns the collection's contents by stored id; the ids are recovered through a
